@@ -68,6 +68,7 @@ class TcpConnection(object):
         self.__readBuffer = bytes()
         self.__writeBuffer = bytes()
         self.__lastReadTime = monotonicTime()
+        self.__lastSendTime = 0
         self.__timeout = timeout
         self.__poller = poller
         self.__keepalive = keepalive
@@ -145,6 +146,14 @@ class TcpConnection(object):
         if self.encryptor:
             data = self.encryptor.encrypt_at_time(data, int(monotonicTime()))
         data = struct.pack('i', len(data)) + data
+        now = monotonicTime()
+        if not self.__writeBuffer and now - self.__lastSendTime > self.__timeout:
+            # Nothing was sent for longer than the timeout, so the peer had nothing to answer:
+            # its silence says nothing about it. Without this, the first message on a connection
+            # that was merely idle (e.g. between two followers) closed the connection instead of
+            # being sent.
+            self.__lastReadTime = max(self.__lastReadTime, now)
+        self.__lastSendTime = now
         self.__writeBuffer += data
         self.__trySendBuffer()
         if self.__writeBuffer and self.__state == CONNECTION_STATE.CONNECTED:
